@@ -50,7 +50,7 @@ pub fn spines(k: usize, reduced: bool, with_prelude: bool, sema_only: bool, orac
         stmts.push(st);
         Some(ProgCase { stmts, tag: format!("spine{:?}/leaf={}", cs, leaf.name) })
     };
-    space(&name, count, 64, desc, Box::new(gen), oracle)
+    space(&name, count, 16, desc, Box::new(gen), oracle)
 }
 
 /// All sequences of exactly `n` top-level statements drawn from the leaves (plus annotation
@@ -90,7 +90,7 @@ pub fn sequences(n: usize, with_prelude: bool, sema_only: bool, oracle: Oracle) 
         }
         Some(ProgCase { stmts, tag: format!("seq[{}]", names.join(",")) })
     };
-    space(&name, count, 128, desc, Box::new(gen), oracle)
+    space(&name, count, 32, desc, Box::new(gen), oracle)
 }
 
 fn rename_decl(st: &mut Stmt, pos: usize) {
